@@ -69,6 +69,7 @@ class Engine:
     """One engine per scenario. Symbolic inputs persist across the re-executed paths."""
 
     FEAS_TIMEOUT_MS = 3000
+    feas_opts = {}          # per-scenario z3 options of the path-feasibility solver (spec["feas_opts"])
     STATIC_TIMEOUT_MS = 500
 
     def __init__(self, name="scenario"):
@@ -183,6 +184,12 @@ class Engine:
         if self._solver is None:
             s = z3.Solver()
             s.set("timeout", self.FEAS_TIMEOUT_MS)
+            opts = dict(self.feas_opts)
+            for kv in filter(None, os.environ.get("SYMX_FEAS_OPTS", "").split(",")):      # development knob
+                k, v = kv.split("=")
+                opts[k] = {"true": True, "false": False}.get(v, int(v) if v.isdigit() else v)
+            for k, v in opts.items():
+                s.set(k, v)
             for a in self.assumptions:
                 s.add(a)
             for c in self.pc:
